@@ -859,15 +859,14 @@ REFINED = [
     "(Dashu.Gen.FloatText) and proved equal to the model's isScaleMarker / hasHexPrefix / fmtSci / fmtRadixTrait (scale_markers_regenerated, "
     "fmt_trait_table_regenerated): a change of a marker, base or flag in the source breaks the build of Props/C08",
     "with_precision never returns more than p digits when the precision shrinks (with_precision_digits)",
-    "with_base between power-related bases at source precisions around usize::MAX / n: the model saturates `precision * n` at usize::MAX (required); the "
-    "code overflows (recorded finding + patch)",
+    "with_base between power-related bases at source precisions around usize::MAX / n: the model saturates `precision * n` at usize::MAX like the "
+    "code does since fix 38e3075 (saturating_mul)",
     "with_base::<NewB>() (and its call forms to_decimal / to_binary) = with_base_and_precision at the derived precision: contract, <= q+1 digits, and "
     "q the documented maximum for bases that are not powers of one another, in one statement (with_base_contract); zero-padded scientific text (zero "
     "flag, right/default alignment, any width, `+`) parses back to the value shown (padded_scientific_print_parse)",
-    "Context::convert_base, same base (round 5): the model states what the property REQUIRES — repr_round to the target precision like every other "
-    "branch (convert_base_same_base) — so convert_base_result_digits (<= p+1 digits) and the contract now hold WITHOUT excluding NewB = B; the code "
-    "returns the operand unrounded (with_base_and_precision::<B>(p), p below the digit count): recorded finding + patch; driven by gen_same_base "
-    "(bases 2, 3, 10, 16)",
+    "Context::convert_base, same base (code as of fix 0c0f651): repr_round to the target precision like every other "
+    "branch (convert_base_same_base), so convert_base_result_digits (<= p+1 digits) and the contract hold WITHOUT excluding NewB = B; "
+    "driven by gen_same_base (bases 2, 3, 10, 16)",
     "infinities: the shortcut of every formatter prints inf / -inf and ignores every formatter option (fmtInfinite; driven against the real "
     "code through all traits, FBig and Repr, op f.fmtinf)",
     "Binary / Octal / LowerHex / UpperHex of FBig (base 2: `b` and the hexadecimal form 0xh.hhp±e; base 8: `o`; base 16: `h`) and Debug of "
@@ -879,8 +878,9 @@ FRONTIER = [
     "is compared with the real code at run time only (E1/E2 classes of round 5: every byte in the scale positions, values at and beyond the isize "
     "limits); the theorems hold for 64-bit isize",
     "exponent arithmetic: the model's exponent is an unbounded integer, the code's an isize. The theorems are about the unbounded model; the driver "
-    "requires an error for a literal whose exact value needs an exponent outside isize and the exact text for a shown exponent outside isize. The real "
-    "code overflows there (debug panic / release wrap): 2 recorded findings (parse.rs:142 + Repr::normalize; fmt.rs:332/334). Display with |exponent| "
+    "requires an error for a literal whose exact value needs an exponent outside isize and the exact text for a shown exponent outside isize; the real "
+    "code agrees on every driven case since fixes 5997fe0 (parser: i128 exponent, InvalidDigit when the normalized exponent does not fit) and a7e84fd "
+    "(scientific formatter: shown exponent in i128). Display with |exponent| "
     "beyond ~5000 is not driven (the text has |exponent| characters); with_base at |exponent| > 2^60 is not driven",
     "Scientific text padded with FILL characters (a width without the zero flag, or the zero flag with left / centre alignment) does not parse "
     "back in general and is not claimed; Display text padded with fill characters likewise",
@@ -948,14 +948,11 @@ LEVEL_TEXT = ("PARTIAL. Machine-checked Lean 4 theorems, for every base >= 2, mo
               "scale-marker table of the parser and the marker table of the formatting traits are regenerated from the source and proved equal to "
               "the model's (Tie A). "
               "Not proved but executed against the real code on every run: Debug, the printing of infinities (all traits). The large-exponent branch (ln/exp) is checked per case with exact "
-              "rational arithmetic; it violates the contract on representable inputs and at small precisions (recorded findings). Exponent arithmetic at the isize "
-              "limits overflows in the parser and in the scientific formatter (2 recorded findings, patches proposed); the theorems are about "
-              "unbounded exponents. with_base_and_precision with the SAME base does not round to a smaller precision (recorded finding, patch "
-              "proposed); the model and the theorems state the required behaviour.")
+              "rational arithmetic; it violates the contract on representable inputs and at small precisions (recorded findings). The theorems are about "
+              "unbounded exponents; exponent arithmetic at the isize limits (parser, scientific formatter) is compared with the real code on every run "
+              "(directed classes at isize::MIN/MAX).")
 LEVEL_NOTE = ("Trusted: Lean kernel; axioms propext/Classical.choice/Quot.sound; the correspondence harness, its exact-arithmetic judge "
               "(dashu-ratio) and the generators (sampling); builder-float's rounding model/theorems (C03, C10) and builder-nt's log2 "
-              "replica (C12) are reused. Eight defects found by this check; six were repaired in /repo (`fixed:` lines of known_findings.jsonl, patches in "
-              "/verif/proposed_fixes/c08-*.diff) and the model describes the repaired code; the two findings about the ln/exp branch, the two about exponent overflow at the isize limits and the same-base "
-              "shortcut of convert_base that does not round (round 5: proposed_fixes/c08-fmt-scientific-exponent-overflow.diff, "
-              "c08-parse-exponent-overflow.diff, c08-convert-base-same-base.diff, c08-with-base-precision-overflow.diff) remain recorded.")
+              "replica (C12) are reused. Twelve defects found by this check; ten were repaired in /repo (`fixed:` lines of known_findings.jsonl, patches in "
+              "/verif/proposed_fixes/c08-*.diff) and the model describes the repaired code; the two findings about the ln/exp branch remain recorded.")
 TECHNIQUE = "Lean 4 model + theorems, differential correspondence model vs real code, exact-arithmetic judge for the ln/exp branch"
